@@ -537,6 +537,15 @@ func registerIntrinsics(m *Machine) {
 	N["(time.Time).String"] = func(m *Machine, fr *Frame, a []Value) Value { return "<time>" }
 	N["(time.Time).GoString"] = func(m *Machine, fr *Frame, a []Value) Value { return "<time>" }
 	N["(time.Time).Format"] = func(m *Machine, fr *Frame, a []Value) Value { return "<time>" }
+	// SQL issued directly on *sql.DB (outside the helper functions a harness models) cannot be
+	// executed: the harness is inconclusive, it neither passes nor reports a violation
+	for _, n := range []string{"ExecContext", "QueryRowContext", "QueryContext", "BeginTx", "Exec", "Query", "QueryRow", "PrepareContext"} {
+		name := n
+		N["(*database/sql.DB)."+name] = func(m *Machine, fr *Frame, a []Value) Value {
+			unsupported("direct SQL statement ((*sql.DB).%s) outside the modelled SQL helper functions", name)
+			return nil
+		}
+	}
 	N["time.After"] = func(m *Machine, fr *Frame, a []Value) Value { return m.makeChan(1) }
 	N["(*time.Timer).Stop"] = func(m *Machine, fr *Frame, a []Value) Value { return TrueT }
 	N["(*time.Timer).Reset"] = func(m *Machine, fr *Frame, a []Value) Value { return TrueT }
